@@ -16,6 +16,7 @@ import (
 	"github.com/thomasjungblut/go-sstables/recordio"
 	"github.com/thomasjungblut/go-sstables/skiplist"
 	"github.com/thomasjungblut/go-sstables/sstables"
+	"verifsim/simos"
 	"verifsim/simrt"
 )
 
@@ -391,9 +392,27 @@ func runLeakCase(c *Ctx, tc tblCase, seed int64) (vs []rsV, evals int) {
 		_, _, _ = mr.SeekNext(0)
 		err2 = mr.Close()
 	}
+	// the constructors that take over an open file handle (they close it and re-open by path), reader and writer
+	var err3, err4 error
+	if f, e := simos.Open(p); e != nil {
+		err3 = e
+	} else if r3, e := recordio.NewFileReaderWithFile(f); e != nil {
+		err3 = e
+	} else if err3 = r3.Open(); err3 == nil {
+		_, _ = r3.ReadNext()
+		err3 = r3.Close()
+	}
+	if f, e := simos.Create(filepath.Join(dir, "handle.rio")); e != nil {
+		err4 = e
+	} else if w4, e := recordio.NewFileWriter(recordio.File(f)); e != nil {
+		err4 = e
+	} else if err4 = w4.Open(); err4 == nil {
+		_, err4 = w4.Write([]byte("record"))
+		err4 = errors.Join(err4, w4.Close())
+	}
 	evals++
-	if err != nil || err2 != nil {
-		add("recordio-reader-error|"+normErr(errors.Join(err, err2)), fmt.Sprint(err, err2))
+	if err != nil || err2 != nil || err3 != nil || err4 != nil {
+		add("recordio-reader-error|"+normErr(errors.Join(err, err2, err3, err4)), fmt.Sprint(err, err2, err3, err4))
 		return
 	}
 	if h, m := w.OpenHandles(), w.OpenMappings(); len(h)+len(m) > 0 {
